@@ -111,6 +111,7 @@ def run(v, tier, seed):
         rep = W("explore.ndjson"); tr = W("trace.ndjson")
         rc.run_refl(["explore", "c04", histories, ncmds, seed, rep, tr, ntraces], timeout=(300 if tier == "quick" else 2400))
         rows = vlib.read_ndjson(rep)
+        if any(r.get("hang") for r in rows): return rows, "NotAccepted", None, tr, 0.0      # ended by the watchdog (reported from the rows): the trace file is cut off
         cfgp = os.path.join(vlib.SPEC, rc.FAMILY, "TreeTrace.cfg")
         if not os.path.exists(cfgp): raise vlib.MachineryError("spec/Reflector/TreeTrace.cfg is missing")
         r = vlib.tlc("TreeTrace", "TreeTrace.cfg", rc.FAMILY, workers=1, timeout=(600 if tier == "quick" else 3000), env={"TRACE": tr}, keep_out=True, heap="6g")
